@@ -22,7 +22,7 @@ def runs(tier, seed, replay):
 CONFIG = {
     "runs": runs,
     "status": "FULL for the plain sampler (Ddnnf::sample_t_wise, every t) and for the fitness-guided sampler (ExtendedDdnnf::sample_t_wise) "
-              "for t <= n; the fitness-guided sampler is REFUTED for t > n (K11). K36 (panic on a repeated child) is repaired by F13 "
+              "for t <= n (the whole property: for t > n there is no set of t literals over distinct features, coverage is vacuous; what the fitness variant does with min(t,n) there is an OBSERVATION, former K11, withdrawn as a finding because the oracle demanded more than the property states). K36 (panic on a repeated child) is repaired by F13 "
               "(children.iter().unique() in remove_unneeded): the theorems carry no hypothesis on the child lists any more. "
               "FULL (Coq, Props/C09.v): (0) C09_sample_t_wise_covers - for every WFQ circuit C over n >= 1 features with root_count > 0, every t, EVERY order oracle that returns permutations (ord_int: "
               "iteration order of the HashSet of cross interactions per ZippingMerger::merge call; ord_sort: order of equally long samples "
@@ -70,7 +70,7 @@ CONFIG = {
               "the node has at least t variables, plus: the sample's literal list contains exactly the leaves over its variables incl. every "
               "literal valid on its own - the cross interactions come from these lists). "
               "C09_sample_t_wise_fitness_refuted_t_exceeds_n: for t = 3 > n = 2 on (x1|-x1)&(x2|-x2) the model answers [1 2; -1 -2], "
-              "{1,-2} uncovered = finding K11, now a theorem about the model and reproduced by every recorded run of that class. "
+              "{1,-2} uncovered at the clamped strength min(t,n) (observation, former K11; counted in driver_stats c09_observed_t_exceeds_n_uncovered_fitness, not a violation of C09 as stated). "
               "Observation (no effect on the property): ExtendedDdnnf::insert_config_sorted compares the pushed configuration with itself "
               "(sorted_configs[curr_idx] after the push), its loop never runs - it is a plain push; the model says so and replays exactly. "
               "CORRESPONDENCE: hook H9 (repo_patches/H9-twise-choice-log.patch) records the order decisions of every plain library run and of "
